@@ -62,7 +62,13 @@ func checkC19(p *Prog, r *Report) {
 	// C19/ZONE-STRIPPED (F29): Accept names a link-local IPv6 peer with its
 	// zone, net.ParseIP rejects zones
 	r.Rule("C19/ZONE-STRIPPED", "the peer host that checkACL hands to net.ParseIP has had an IPv6 zone removed (strings.Cut(host, \"%\") before the call): Accept reports link-local peers as [fe80::1%eth0]:port and ParseIP rejects a zone, so without this every non-empty ACL refuses such a client whatever its rules say", 1)
-	allCalls(fn, func(c ssa.CallInstruction) {
+	zsUnit := p.ModGraph().unitFuncs(fn) // checkACL and the helpers its address parsing is split into
+	forZS := func(f func(ssa.CallInstruction)) {
+		for _, u := range zsUnit {
+			allCalls(u, f)
+		}
+	}
+	forZS(func(c ssa.CallInstruction) {
 		if calleeName(c) != "net.ParseIP" {
 			return
 		}
